@@ -350,6 +350,23 @@ class SoloFirst:
         return self.inner.pick(runnable, sched)
 
 
+class StopLine:
+    """thread `first` runs `k` steps, then thread `second` runs to completion, then the lowest runnable thread"""
+
+    def __init__(self, first, k, second):
+        self.first, self.k, self.second = first, k, second
+        self.n = 0
+
+    def pick(self, runnable, sched):
+        if self.n < self.k and self.first in runnable:
+            self.n += 1
+            return self.first
+        self.n = self.k
+        if self.second in runnable:
+            return self.second
+        return runnable[0]
+
+
 def preemptions(decisions):
     n = 0
     for i in range(1, len(decisions)):
@@ -663,6 +680,43 @@ def mem_cache_impl():
     globals()["MemCacheImpl"] = MemCacheImpl
     register_plugin("c16mem", __name__, "MemCacheImpl")
     return "c16mem"
+
+
+def region_cache_impl():
+    """a recording back end that DEPENDS on a per-def cache argument, as dogpile's plugin does (`kw['region']`
+    raises KeyError when the def's own arguments did not arrive)"""
+    from mako.cache import CacheImpl, register_plugin
+
+    class RegionCacheImpl(CacheImpl):
+        def get_or_create(self, key, creation_function, **kw):
+            region = kw["region"]
+            k = (self.cache.id, region, key)
+            if k not in _MEM_CACHE:
+                _MEM_CACHE[k] = creation_function()
+            return _MEM_CACHE[k]
+
+        def set(self, key, value, **kw):
+            _MEM_CACHE[(self.cache.id, kw["region"], key)] = value
+
+        def get(self, key, **kw):
+            return _MEM_CACHE.get((self.cache.id, kw["region"], key))
+
+        def invalidate(self, key, **kw):
+            _MEM_CACHE.pop((self.cache.id, kw["region"], key), None)
+
+    globals()["RegionCacheImpl"] = RegionCacheImpl
+    register_plugin("c16region", __name__, "RegionCacheImpl")
+    return "c16region"
+
+
+def file_lines_predicate(relname):
+    """line-level predicate for ONE mako source file (e.g. 'cache.py')"""
+    import mako
+    path = os.path.join(os.path.dirname(os.path.abspath(mako.__file__)), relname)
+
+    def pred(code):
+        return "line" if code.co_filename == path else ""
+    return pred
 
 
 def mako_code_predicate():
